@@ -8,6 +8,7 @@ from . import rules_radix as RR
 from . import rules_own as RO
 from . import rules_link as RL
 from . import rules_hash as RH
+from . import rules_bits as RBI
 
 
 def need_unit(ctx, name, w1=False, **kw):
@@ -167,4 +168,16 @@ def C14(ctx):
             "Not decided: agreement with a reference map over histories.")
 
 
-PROPS = {"C14": C14, "C13": C13, "C16": C16, "C10": C10, "C09": C09, "C11": C11, "C12": C12, "C05": C05, "C04": C04}
+def C18(ctx):
+    sizes = [70] if ctx.tier == "quick" else [1, 63, 64, 65, 70, 128, 200]
+    for nb in sizes:
+        u = need_unit(ctx, "bits", extra_flags=("-DFRG_VERIF_BITS=%d" % nb,), tag="N%d" % nb)
+        RBI.check_C18(ctx, u, nb)
+    return ("Structural clauses of C18: constant subscripts of array within bounds; bitset constructors initialise every "
+            "word and mask; dirty word writes are followed by mask_last_bit(); shift operators bound the shift amount before "
+            "any dependent access; all shift counts within the operand width; no unconditional self-recursion; bit-reference "
+            "semantics; PRNG constants; insertion_sort permutes by guarded swaps only. Not decided: bit-for-bit agreement "
+            "with std::bitset, the random streams, sortedness.")
+
+
+PROPS = {"C18": C18, "C14": C14, "C13": C13, "C16": C16, "C10": C10, "C09": C09, "C11": C11, "C12": C12, "C05": C05, "C04": C04}
